@@ -7,11 +7,15 @@ from props import subfam
 def run(tier, seed, replay=None):
     ck = vlib.Check("C08", tier, seed, "model_checking")
     binary = vlib.build_harness()
-    subfam.model_check(ck)
+    subfam.model_check(ck, thorough=(tier != "quick"))
     n = 160 if tier == "quick" else 4000
     lines, wd = subfam.run_family(ck, binary, "announce", n, seed, strict=True)
     shutil.rmtree(wd, ignore_errors=True)
     lines, wd = subfam.run_family(ck, binary, "faults", n, seed, strict=True)
+    shutil.rmtree(wd, ignore_errors=True)
+    lines, wd = subfam.run_family(ck, binary, "idle", n, seed, strict=True)
+    shutil.rmtree(wd, ignore_errors=True)
+    lines, wd = subfam.run_family(ck, binary, "idlex", n, seed, strict=False)
     shutil.rmtree(wd, ignore_errors=True)
     lines, wd = subfam.run_family(ck, binary, "scoped", n, seed, strict=False)
     shutil.rmtree(wd, ignore_errors=True)
